@@ -45,18 +45,18 @@ def dumpBlocks (rates : List Nat) : List Val → List String × Option RErr
 
 def readRecords (bs : Bytes) : String :=
   let fuel := 4 * bs.length + 10
-  let header : Prog (Val × Nat × Bool) := do
+  let header : Prog (Val × Nat × Bool × Bool) := do
     let (len, indef) ← readArrayStart
     if len ≠ 3 ∧ !indef then .throw .decoder else do
     let t ← readTextstring fuel
     if upper t ≠ cdnsText then .throw .decoder else do
     let pv ← readVal fuel filePreamble
     let (cnt, bindef) ← readArrayStart
-    pure (pv, cnt, bindef)
+    pure (pv, cnt, bindef, indef)
   match header.run bs with
   | .error e => Sch.showErr e
-  | .ok ((pv, cnt, bindef), rest) =>
-    let (blocks, status) := Props.C05.readAll (readBlock fuel) (bs.length + 2) ⟨bindef, cnt, 0⟩ 0 rest
+  | .ok ((pv, cnt, bindef, findef), rest) =>
+    let (blocks, status) := Props.C05.readAll (readBlock fuel) (bs.length + 2) ⟨bindef, cnt, 0, findef⟩ 0 rest
     let (dumps, err) := dumpBlocks (ratesOf pv) (blocks.map (·.1))
     let tail := match err with
       | some e => showRErr e
